@@ -153,6 +153,46 @@ theorem lsn_asym_step_is_product_formula (n : Nat) (Tre Tim V : Nat → Nat → 
     rw [List.filter_eq_self.mpr (by intro e he; obtain ⟨i, _, rfl⟩ := List.mem_map.mp he; rfl)]
     simp [List.map_map, Function.comp]
 
+/-- One *symmetric* linear-swap-network step: every hopping / density-density generator occurs
+twice with half the coefficient (once in each of the two networks, offsets `False` / `True`), every
+number operator once with the full coefficient — for every number of modes. -/
+theorem lsn_sym_step_is_product_formula (n : Nat) (Tre Tim V : Nat → Nat → Rat)
+    (hT : ∀ p q, Tre p q = Tre q p) (hV : ∀ p q, V p q = V q p) :
+    ((lsnSymStep n Tre Tim V).map (coeffOfKind 0)).sum
+        = ((allPairs n).map fun k => Tre k.1 k.2 / 2).sum + ((allPairs n).map fun k => Tre k.1 k.2 / 2).sum ∧
+    ((lsnSymStep n Tre Tim V).map (coeffOfKind 2)).sum
+        = ((allPairs n).map fun k => V k.1 k.2).sum + ((allPairs n).map fun k => V k.1 k.2).sum ∧
+    ((lsnSymStep n Tre Tim V).map (coeffOfKind 3)).sum = ((List.range n).map fun i => Tre i i).sum := by
+  have hT2 : ∀ p q, Tre p q / 2 = Tre q p / 2 := by intro p q; rw [hT]
+  unfold lsnSymStep
+  simp only [List.map_append, List.sum_append, sum_flatMap, List.map_map]
+  refine ⟨?_, ?_, ?_⟩
+  · have z : (((List.range n).map ((coeffOfKind 0) ∘ fun i => ((3 : Nat), i, i, n - 1 - i, Tre i i))).sum) = 0 := by
+      apply List.sum_eq_zero; intro x hx; obtain ⟨i, _, rfl⟩ := List.mem_map.mp hx; simp [coeffOfKind]
+    rw [z, add_zero]
+    refine congrArg₂ (· + ·) ?_ ?_
+    · rw [← sum_over_log n false _ hT2]
+      apply congrArg; apply List.map_congr_left; intro e _; simp [coeffOfKind]
+    · rw [← sum_over_log n true _ hT2]
+      apply congrArg; apply List.map_congr_left; intro e _; simp [coeffOfKind]
+  · have z : (((List.range n).map ((coeffOfKind 2) ∘ fun i => ((3 : Nat), i, i, n - 1 - i, Tre i i))).sum) = 0 := by
+      apply List.sum_eq_zero; intro x hx; obtain ⟨i, _, rfl⟩ := List.mem_map.mp hx; simp [coeffOfKind]
+    rw [z, add_zero]
+    refine congrArg₂ (· + ·) ?_ ?_
+    · rw [← sum_over_log n false _ hV]
+      apply congrArg; apply List.map_congr_left; intro e _; simp [coeffOfKind]
+    · rw [← sum_over_log n true _ hV]
+      apply congrArg; apply List.map_congr_left; intro e _; simp [coeffOfKind]
+  · have z1 : ∀ off, (((swapNetwork n off).2.map fun e =>
+        ([((0 : Nat), e.1, e.2.1, e.2.2.1, Tre e.1 e.2.1 / 2), (1, e.1, e.2.1, e.2.2.1, Tim e.1 e.2.1 / 2),
+          (2, e.1, e.2.1, e.2.2.1, V e.1 e.2.1)].map (coeffOfKind 3)).sum).sum) = 0 := by
+      intro off; apply List.sum_eq_zero; intro x hx; obtain ⟨e, _, rfl⟩ := List.mem_map.mp hx; simp [coeffOfKind]
+    have z2 : (((swapNetwork n true).2.map fun e =>
+        ([((2 : Nat), e.1, e.2.1, n - 1 - e.2.2.1, V e.1 e.2.1), (1, e.1, e.2.1, n - 1 - e.2.2.1, Tim e.1 e.2.1 / 2),
+          (0, e.1, e.2.1, n - 1 - e.2.2.1, Tre e.1 e.2.1 / 2)].map (coeffOfKind 3)).sum).sum) = 0 := by
+      apply List.sum_eq_zero; intro x hx; obtain ⟨e, _, rfl⟩ := List.mem_map.mp hx; simp [coeffOfKind]
+    rw [z1 false, z2, zero_add, add_zero]
+    apply congrArg; apply List.map_congr_left; intro i _; simp [coeffOfKind]
 /-- non-vacuity / sanity: the order-2 step with ratio `r 2 = 1/3` has times `⅓,⅓,-⅓,⅓,⅓`; the
 reversal is an involution; three steps leave the register reversed -/
 example : (performStep reversal (fun _ => 1/3) 2 [0, 1, 2] 1).map (·.time) = [1/3, 1/3, -1/3, 1/3, 1/3] := by
@@ -161,5 +201,8 @@ example : (performStep reversal (fun _ => 1/3) 2 [0, 1, 2] 1).map (·.qubits) =
     [[0, 1, 2], [2, 1, 0], [0, 1, 2], [2, 1, 0], [0, 1, 2]] := by decide +kernel
 example : (simulate reversal (fun _ => 1/3) 2 3 [0, 1, 2] 1).2 = [2, 1, 0] := by decide +kernel
 example : ∀ q : List Nat, reversal (reversal q) = q := by intro q; simp [reversal]
+/-- symmetric coefficient tables exist (hypotheses of the product-formula theorems) -/
+example : ∀ p q : Nat, (fun a b : Nat => ((a + b : Nat) : Rat)) p q = (fun a b : Nat => ((a + b : Nat) : Rat)) q p := by
+  intro p q; simp [Nat.add_comm]
 
 end OFV.C15
